@@ -606,10 +606,12 @@ def _type_text(t, ind, ctx):
             return 'SEQUENCE { }'
         return 'SEQUENCE {\n' + ',\n'.join(pad + '  ' + i for i in items) + '\n' + pad + '}'
     if k == 'choice':
-        items = ['%s %s' % (n, type_text(at, ind + 1, ctx)) for n, at in t['root']]
+        def alt_text(n, at):
+            return '%s %s%s' % (n, tag_text(at['alt_tag']) if at.get('alt_tag') else '', type_text(at, ind + 1, ctx))
+        items = [alt_text(n, at) for n, at in t['root']]
         if t['ext'] is not None:
             items.append('...')
-            items += grouped(['%s %s' % (n, type_text(at, ind + 1, ctx)) for n, at in t['ext']], t.get('groups'))
+            items += grouped([alt_text(n, at) for n, at in t['ext']], t.get('groups'))
         return 'CHOICE {\n' + ',\n'.join(pad + '  ' + i for i in items) + '\n' + pad + '}'
     raise ValueError(k)
 
